@@ -108,8 +108,10 @@ def worker_init():
 def check(n1, f1, n2, f2, scope, with_fc, only=None):
     src = build(n1, f1, n2, f2, scope)
     orig = progs.run_prog(src)
-    out, info = [], {"admitted": orig[0] == "ok", "nontrivial": []}
-    if orig[0] != "ok":
+    # deterministic programs only: printing a function object shows its address, which differs between two runs
+    admitted = orig[0] == "ok" and " at 0x" not in orig[1] and progs.run_prog(src) == orig
+    out, info = [], {"admitted": admitted, "nontrivial": []}
+    if not admitted:
         return out, info
     entries = list(RULES) + (["format_code"] if with_fc else [])
     for entry in entries:
